@@ -1,6 +1,6 @@
 #!/venv/bin/python
 """tools/archive_seed.py <worktree> <seedN> <seed-id> <property> : confirm a sub-agent's seeded change and archive it under /verif/seeded/<seed-id>/.
-Runs demo.py on the clean worktree (must pass), with the patch (must fail), applies the patch to /repo, runs every check, reverts, and writes meta.json."""
+Runs demo.py on the clean worktree (must pass), with the patch (must fail), runs every check against the worktree with the patch applied (LERAX_REPO), reverts, and writes meta.json."""
 import json
 import os
 import re
@@ -33,24 +33,23 @@ sh(f"git -C {wt} checkout -q -- src")
 print(f"demo clean rc={clean.returncode}; import rc={imp.returncode}; demo patched rc={patched.returncode}; tests: {test_res}")
 if clean.returncode != 0 or patched.returncode == 0 or imp.returncode != 0:
     print("NOT CONFIRMED"); sys.exit(1)
-# run the checks against /repo with the patch applied
-if sh("git -C /repo status --porcelain --untracked-files=no").stdout.strip():
-    print("/repo not clean"); sys.exit(2)
+# run the checks against the worktree with the patch applied there (LERAX_REPO): /repo itself is never touched
 patch = os.path.join(wt, sd, "patch.diff")
-if sh(f"git -C /repo apply {patch}").returncode != 0:
-    print("patch does not apply to /repo"); sys.exit(2)
+if sh(f"git -C {wt} apply {sd}/patch.diff").returncode != 0:
+    print("patch does not apply in the worktree"); sys.exit(2)
 fired = {}
+cenv = dict(os.environ, LERAX_REPO=wt)
 try:
     for i in range(1, 21):
         p = f"C{i:02d}"
-        r = sh(f"cd {VERIF} && ./check {p} --no-evidence")
+        r = subprocess.run(f"cd {VERIF} && ./check {p} --no-evidence", shell=True, capture_output=True, text=True, env=cenv)
         if r.returncode != 0:
             rules = sorted(set(re.findall(r"rule (C\d+\.(?:\d+|L)) \[(.+?)\] ([\w.-]+): ", r.stdout)))
             fired[p] = {"exit": r.returncode, "violations": r.stdout.count("\nVIOLATION"), "rules": [f"{a} [{b}] {c}" for a, b, c in rules][:12],
                         "analysis_error": [l for l in r.stdout.splitlines() if l.startswith("ANALYSIS-ERROR")][:2]}
 finally:
-    sh("git -C /repo checkout -- .")
-dirty = sh("git -C /repo status --porcelain --untracked-files=no").stdout.strip()
+    sh(f"git -C {wt} checkout -q -- src")
+dirty = ""
 dst = os.path.join(VERIF, "seeded", sid)
 os.makedirs(dst, exist_ok=True)
 for f in ("patch.diff", "demo.py", "notes.md"):
@@ -64,7 +63,7 @@ meta = {
     "needs_to_manifest": "see notes.md",
     "confirmed": {"demo_on_unmodified_tree": f"exit {clean.returncode}", "demo_with_patch": f"exit {patched.returncode}", "imports_with_patch": imp.returncode == 0,
                   "existing_tests_with_patch": test_res},
-    "checks_run": "all 20 quick checks against /repo with the patch applied (git apply), then git checkout -- .",
+    "checks_run": "all 20 quick checks against the sub-agent's worktree with the patch applied (LERAX_REPO=<worktree>), then git checkout -- src",
     "caught_by": fired, "caught": prop in fired and fired[prop]["exit"] == 1,
     "caught_by_other_property": sorted(k for k, v in fired.items() if k != prop and v["exit"] == 1),
 }
